@@ -7,7 +7,7 @@ code does not change the inventory; adding, removing or changing a site does."""
 import re, sys, json, os
 
 KINDS = [('unwrap', r'\.unwrap\(\)'), ('expect', r'\.expect\('), ('panic', r'\b(?:panic|unreachable|todo|unimplemented)!\('),
-         ('assert', r'\bassert(?:_eq|_ne)?!\('), ('from_raw', r'\bfrom_raw\('), ('unquote', r'\.unquote\(\)'),
+         ('assert', r'\bassert(?:_eq|_ne)?!\('), ('print', r'\b(?:println|print|eprintln|eprint|dbg)!\('), ('from_raw', r'\bfrom_raw\('), ('unquote', r'\.unquote\(\)'),
          ('to_str_helper', r'\.to_str\(\)(?!\s*\.)'), ('boundary', r'\.(?:truncate|split_at|split_off|drain|replace_range|swap_remove|copy_from_slice|step_by|chunks|windows)\('), ('index', r'\w\[[^\]\n]*\](?!\s*=[^=])')]
 
 
@@ -36,6 +36,9 @@ def inventory(repo):
                     cur = m.group(1)
                     if skip_cfg:
                         cur = '<verif hook>'
+                # (the attribute guards the item that follows it directly — a statement inside a function, or a function; it must not reach the
+                #  next function further down: `process` was left out of the inventory that way until D25 showed it)
+                if line.strip() and not line.strip().startswith('#['):
                     skip_cfg = False
                 code = re.sub(r'//.*$', '', line)
                 code_ns = re.sub(r'"(?:[^"\\]|\\.)*"', '""', code)
